@@ -14,6 +14,7 @@ pub mod c10;
 pub mod c11;
 pub mod c12;
 pub mod c13;
+pub mod c14;
 pub mod c15;
 pub mod c16;
 pub mod c17;
@@ -53,6 +54,7 @@ pub static PROPS: &[Prop] = &[
     Prop { id: "C17", run: c17::run, meta: c17::meta, single_process: false, budget_quick_s: 120, budget_thorough_s: 900, handles_foreign_panics: false },
     Prop { id: "C18", run: c18::run, meta: c18::meta, single_process: false, budget_quick_s: 120, budget_thorough_s: 900, handles_foreign_panics: false },
     Prop { id: "C19", run: c19::run, meta: c19::meta, single_process: false, budget_quick_s: 120, budget_thorough_s: 900, handles_foreign_panics: false },
+    Prop { id: "C14", run: c14::run, meta: c14::meta, single_process: false, budget_quick_s: 150, budget_thorough_s: 1200, handles_foreign_panics: true },
 ];
 
 pub fn find(id: &str) -> Option<&'static Prop> {
